@@ -26,7 +26,9 @@ def estimate_sigma0(X: np.ndarray) -> float:
 
 
 def estimate_stds(X: np.ndarray) -> np.ndarray:
-    return np.sqrt(np.diag(estimate_covariance(X)))
+    # A coordinate in which all neighbours coincide gives a zero std, which cma.CMAEvolutionStrategy
+    # cannot digest (non-finite step, AssertionError in tell): floor it like sigma0 above.
+    return np.maximum(np.sqrt(np.diag(estimate_covariance(X))), _EPS)
 
 
 def get_population(
